@@ -178,13 +178,28 @@ impl IndexHunkIter {
 
     pub async fn next(&mut self) -> Option<Vec<IndexEntry>> {
         loop {
-            let hunk_number = self.hunks.next()?;
-            let entries = match self.index.read_hunk(hunk_number).await {
-                Ok(None) => return None,
-                Ok(Some(entries)) => entries,
-                Err(_err) => {
-                    continue;
-                }
+            match self.try_next().await {
+                Ok(hunk) => return hunk,
+                Err(Error::IndexHunkMissing { .. }) => return None,
+                Err(_err) => continue,
+            }
+        }
+    }
+
+    /// Return the next hunk of entries, or an error if a hunk that was listed can't be
+    /// found, read or decoded.
+    ///
+    /// After an error the iterator can be used again and continues with the following hunk.
+    /// Callers for which silently missing entries are dangerous (for example, working
+    /// out which blocks are unreferenced) must use this rather than [IndexHunkIter::next].
+    pub async fn try_next(&mut self) -> Result<Option<Vec<IndexEntry>>> {
+        loop {
+            let Some(hunk_number) = self.hunks.next() else {
+                return Ok(None);
+            };
+            let entries = match self.index.read_hunk(hunk_number).await? {
+                None => return Err(Error::IndexHunkMissing { hunk_number }),
+                Some(entries) => entries,
             };
             if let Some(ref after) = self.after {
                 if let Some(last) = entries.last() {
@@ -195,17 +210,17 @@ impl IndexHunkIter {
                 if let Some(first) = entries.first() {
                     if first.apath > *after {
                         self.after = None; // don't need to look again
-                        return Some(entries);
+                        return Ok(Some(entries));
                     }
                 }
                 let idx = match entries.binary_search_by_key(&after, |entry| &entry.apath) {
                     Ok(idx) => idx + 1, // after the point it was found
                     Err(idx) => idx,    // from the point it would have been
                 };
-                return Some(Vec::from(&entries[idx..]));
+                return Ok(Some(Vec::from(&entries[idx..])));
             }
             if !entries.is_empty() {
-                return Some(entries);
+                return Ok(Some(entries));
             }
         }
     }
